@@ -356,8 +356,18 @@ def with_reloads(events, svcs, timeout_on, rng, every):
     out = []
     orig = "1h" if timeout_on else ""
     cur = orig
+    pending_back = False      # the timeout is switched off for a stretch without announcements (timeout configured), or
+    #                           on for a stretch with announcements (none configured); switched back at the latest here
     for e in events:
-        if rng.randrange(every) == 0:
+        if pending_back and (e.get("e") == "C" if timeout_on else rng.randrange(12) == 0):
+            out.append({"e": "RL", "svcs": svcs, "to": orig})
+            cur, pending_back = orig, False
+        if not pending_back and not (timeout_on and e.get("e") == "C") and rng.randrange(every * 3) == 0:
+            # requests end (and, without a configured timeout, are announced) while the other setting is in force
+            cur = "" if timeout_on else "30m"
+            out.append({"e": "RL", "svcs": svcs, "to": cur})
+            pending_back = True
+        elif not pending_back and rng.randrange(every) == 0:
             r = rng.randrange(3)
             seq = ["" if timeout_on else "30m", orig] if r == 0 else ["2h", orig] if r == 1 else \
                 (["2h" if cur == "1h" else "1h"] if timeout_on else ["45m", ""])
@@ -365,7 +375,24 @@ def with_reloads(events, svcs, timeout_on, rng, every):
                 out.append({"e": "RL", "svcs": svcs, "to": v})
                 cur = v
         out.append(e)
+    if cur != orig:
+        # the daemon process goes on with other histories: they start under the original setting
+        out.append({"e": "RL", "svcs": svcs, "to": orig})
     return out
+
+
+def rt_with_reload(history, svcs, k):
+    """Real-timer histories: every third one has, right after its last announcement, a reload that switches the
+    timeout off (or to another value).  The requests announced before keep their timers and deadlines (the setting is
+    read when a client is announced), so everything after - withdrawals, verdicts, the clock running past the deadlines -
+    is judged as before; no client is announced under the new setting."""
+    if k % 3 != 1:
+        return history
+    last = max((i for i, e in enumerate(history) if e.get("e") == "C"), default=None)
+    if last is None:
+        return history
+    rl = {"e": "RL", "svcs": svcs, "to": "" if (k // 3) % 2 == 0 else "7"}
+    return history[:last + 1] + [rl] + history[last + 1:]
 
 
 def hook_replay(ctx, behaviours, svcs, timeout_on=True, nproc=6, tag="h", tails=None, **opts):
@@ -406,7 +433,11 @@ def rt_run(build, workdir, svcs, timing, history):
     """One timed history on one fresh daemon.  Returns (records, ok, why): ok = False when the wall-clock
     schedule could not be kept (the records are then not evidence of anything)."""
     os.makedirs(workdir, exist_ok=True)
-    d = BookDaemon(build, workdir, svcs, timeout=str(timing.seconds), modules=("iauth_xquery",))
+    try:
+        os.unlink(os.path.join(workdir, RELOAD_LOG))
+    except OSError:
+        pass
+    d = BookDaemon(build, workdir, svcs, timeout=str(timing.seconds), modules=("iauth_xquery",), logs=RELOAD_LOGS)
     recs = [reset_record(svcs, True, {"rt": timing.seconds})]
     if d.dead:
         recs.append({"e": "Crash", "ev": {"e": "startup"}, "partial": []})
